@@ -2,6 +2,7 @@
 # usage: tryseed.sh <prop> <patch.diff>   applies the patch to /repo, runs the quick check, reverts
 prop=$1; patch=$2
 cd /repo || exit 2
+[ -n "$(git status --porcelain)" ] && { echo "REFUSING: /repo has uncommitted changes (commit them first)"; exit 4; }
 git apply --check "$patch" 2>/dev/null || { echo "PATCH DOES NOT APPLY: $patch"; git apply --3way "$patch" 2>&1 | tail -2; git checkout -- . ; exit 3; }
 git apply "$patch"
 cd /verif && ./check "$prop" quick 2>&1 | grep -v "^KNOWN-FINDING" | tail -6
